@@ -655,7 +655,6 @@ def compare_with_client(stack, drv, cli, case):
 
 # ======================================================================== labels / non-trivial rule
 
-_ESC = re.compile('%([0-9A-Fa-f]{2})')
 _MALFORMED = re.compile('%(?![0-9A-Fa-f]{2})')
 
 
@@ -820,8 +819,6 @@ queries = st.one_of(
               st.lists(_qpair, min_size=1, max_size=5), st.lists(st.sampled_from(['&', '&', '&', ';', '&&']), min_size=1, max_size=3)),
     st.sampled_from(['a=1&a=2', 'a=1,2&a=3', 'a=&a=1', 'a', '&', '=', '=x', 'a=1&', '?a=1', 'a=b=c']),
 )
-
-_VALUE_OK = re.compile('^[\t\x20-\x7e\x80-\xff]*$')
 
 
 def clean_value(v):
@@ -993,7 +990,7 @@ _props = st.one_of(
     st.tuples(st.just('location'), st.sampled_from(['/new', 'https://example.com/a b', '/café', '/q?a=1&b=2'])),
     st.tuples(st.just('content_location'), st.sampled_from(['/doc', '/café'])),
     st.tuples(st.just('cache_control'), st.sampled_from([['no-cache'], ['public', 'max-age=60'], []])),
-    st.tuples(st.just('etag'), st.sampled_from(['abc', '"quoted"', 'W/"weak"', ''])),
+    st.tuples(st.just('etag'), st.sampled_from(['abc', '"quoted"', 'W/"weak"', 'a b'])),
     st.tuples(st.just('retry_after'), st.sampled_from([0, 30, '120'])),
     st.tuples(st.just('vary'), st.sampled_from([['Accept'], ['Accept', 'Origin'], ['*']])),
     st.tuples(st.just('accept_ranges'), st.sampled_from(['bytes', 'none'])),
@@ -1188,7 +1185,7 @@ class WsgiAsgi(Suite):
     HTTPStatus, 5 redirect classes, an unhandled application exception."""
 
     name = 'wsgi_asgi'
-    budget = {'quick': 4000, 'thorough': 100000}
+    budget = {'quick': 6000, 'thorough': 100000}
 
     def strategy(self, tier):
         return _requests(False)
@@ -1212,7 +1209,7 @@ class Client(Suite):
     driver runs are also compared with each other."""
 
     name = 'client'
-    budget = {'quick': 1600, 'thorough': 30000}
+    budget = {'quick': 2400, 'thorough': 30000}
 
     def strategy(self, tier):
         return _requests(True)
